@@ -4,6 +4,7 @@ per-step series never touches a filled slot — every series keeps all its value
 own neutral element.  By symbolic execution, on a market with chunk size 4 whose eight series hold two
 slots each (all sixteen values atoms) and that is asked to make room for time 2.
 -/
+import PamsLemmas.EvalNf
 import PamsGen.Code
 import PamsLemmas.SrcOrder
 
@@ -44,8 +45,8 @@ def fillPaths (time : Int) := obsPathsPG fillObs env FUEL "Market._fill_until" [
 def rhoFill (x : Nat → K) (n : Nat → Int) : Rho K := { i := n, n := x, b := fun _ => false }
 
 set_option maxRecDepth 100000
-theorem fillP_2 : fillPaths 2 = nf% (fillPaths 2) := by rfl
-theorem fillP_1 : fillPaths 1 = nf% (fillPaths 1) := by rfl
+theorem fillP_2 : fillPaths 2 = evalnf% (fillPaths 2) := by kernel_rfl
+theorem fillP_1 : fillPaths 1 = evalnf% (fillPaths 1) := by kernel_rfl
 
 /-- **storage growth keeps every recorded value** (current source): asked to make room for time 2, each
 of the eight series keeps its two slots as they are and gets two fresh slots — `None` for the four
